@@ -65,6 +65,11 @@ def class_atoms(cls) -> set:
         dflt = "missing" if f.default is dataclasses.MISSING else ("none" if f.default is None else "value")
         atoms.add((arr, leaf, "tag" in f.metadata, opt, arr_opt, dflt, bool(cls.__flexible__)))
     atoms.add(("kind", cls.__type__.name, bool(cls.__flexible__), len(dataclasses.fields(cls)) == 0))
+    tags = sorted(int(f.metadata["tag"]) for f in dataclasses.fields(cls) if "tag" in f.metadata)
+    # how many tagged fields, whether their tags are declared in ascending order, whether they start at 0
+    atoms.add(("tags", min(len(tags), 4),
+               [int(f.metadata["tag"]) for f in dataclasses.fields(cls) if "tag" in f.metadata] == tags,
+               (tags[0] == 0) if tags else None, (tags == list(range(len(tags)))) if tags else None))
     return atoms
 
 
